@@ -146,6 +146,8 @@ impl Server {
         let grammar_config = grammar_config.clone();
         thread::spawn(move || match grammar_config.grammar_type {
             GrammarType::LLK => {
+                #[cfg(parol_verif)]
+                crate::verif_hooks::background_delay(&document_state.input);
                 if let Err(err) = calculate_lookahead_dfas(&grammar_config, max_k) {
                     eprintln!("check_grammar: errors from calculate_lookahead_dfas");
                     let _ =
@@ -153,6 +155,8 @@ impl Server {
                 }
             }
             GrammarType::LALR1 => {
+                #[cfg(parol_verif)]
+                crate::verif_hooks::background_delay(&document_state.input);
                 let result = calculate_lalr1_parse_table(&grammar_config);
                 match result {
                     Ok((_, resolved_conflicts)) => {
